@@ -35,7 +35,7 @@ VH_DRIVER(escape){
   long per=8+16; size_t total=in.size()*per; double keep= total>(size_t)want? (double)want/total:1.0; long k=0; size_t idx=0;
   for(auto&t:in){ bool narrow=true; for(int c:t) if(c>255) narrow=false; double keep_save=keep; if(idx++<nmust) keep=1.0; struct Restore{ double&k; double v; ~Restore(){ k=v; } } restore{keep,keep_save};
     for(int sp=0;sp<2;++sp) for(int nb=0;nb<2;++nb) for(int ex=0;ex<2;++ex){ ++k; if(keep<1.0 && (R.next()%1000000)>=keep*1000000) continue; AW(narrow,k%2,[&]{ escape_event<ApiA>(a1,a2,t,ex,sp,nb); },[&]{ escape_event<ApiW>(a1,a2,t,ex,sp,nb); }); }
-    for(int ps=0;ps<2;++ps) for(int conv=0;conv<4;++conv) for(int wd=0;wd<2;++wd){ ++k; if(keep<1.0 && (R.next()%1000000)>=keep*1000000) continue; bool plain=(ps==0&&conv==3&&wd==0&&(k%4==0)); if(g.pair){ if(wd==0) AW(narrow,true,[&]{ unescape_event<ApiA>(a3,t,ps,conv,plain); },[&]{ unescape_event<ApiW>(a3,t,ps,conv,plain); }); } else if(wd==0) unescape_event<ApiA>(a3,t,ps,conv,plain); else unescape_event<ApiW>(a3,t,ps,conv,plain); }
+    for(int ps=0;ps<2;++ps) for(int conv=0;conv<4;++conv) for(int wd=0;wd<2;++wd){ ++k; if(keep<1.0 && (R.next()%1000000)>=keep*1000000) continue; bool plain=(ps==0&&conv==3&&((k>>4)%2==0));   /* the two-argument-less variant, for every other text (k counts 16 per text) */ if(g.pair){ if(wd==0) AW(narrow,true,[&]{ unescape_event<ApiA>(a3,t,ps,conv,plain); },[&]{ unescape_event<ApiW>(a3,t,ps,conv,plain); }); } else if(wd==0) unescape_event<ApiA>(a3,t,ps,conv,plain); else unescape_event<ApiW>(a3,t,ps,conv,plain); }
     g.count(jtext(t),!t.empty()); if(k%20011<24) g.sample(J().str("in",show(t)).done()); }
   return 0;
 }
